@@ -139,6 +139,21 @@ pub fn perturb(l: &Layout, fi: usize) -> Vec<(String, Layout)> {
         }
         push("huge-range-end-wraps", nf, None);
     }
+    // only ONE item of a list moved above the base (a single-bit item, or the first / last range), the rest stays
+    if f.ranges.len() >= 2 {
+        for k in [0usize, f.ranges.len() - 1] {
+            let r = f.ranges[k].clone();
+            if r.lo > r.hi {
+                continue;
+            }
+            let wlen = r.hi - r.lo;
+            for t in [l.base_bits, storage_bits(l.base_bits) - 1 + if l.base_native() { 1 } else { 0 }] {
+                let mut nf = f.clone();
+                nf.ranges[k] = Rng { lo: t, hi: t + wlen, short: r.short && wlen == 0 };
+                push("list-one-item-above-base", nf, None);
+            }
+        }
+    }
     // a range that runs over the top of the base, with a second range nested inside it (so the range with the
     // highest start is not the one reaching highest); the type width is the sum of both lengths
     if matches!(f.ty, FieldTy::UArb { .. } | FieldTy::UNat { .. }) && l.base_bits >= 6 && f.array.is_none() {
